@@ -4,6 +4,7 @@ package pcache
 
 import (
 	"fmt"
+	"math"
 	"sort"
 
 	"github.com/creachadair/mds/cache"
@@ -267,6 +268,8 @@ func (c CacheCase) valFor(step int, op COp) Val {
 		switch {
 		case op.S%11 == 9:
 			v.Size = int64(c.Limit)
+		case op.S%11 == 10 && op.S%2 == 0:
+			v.Size = math.MaxInt64 - int64(op.S%3) // far too big: must be refused without any arithmetic going wrong
 		case op.S%11 == 10:
 			v.Size = int64(c.Limit) + 1 + int64(op.S%3)
 		default:
